@@ -22,6 +22,8 @@ def run(chk, tier):
     from props import c10
     chk.guarded(c10.r_fraction_scale, P, tier)
     chk.guarded(c12.r_numeric_writers, P, tier)
+    chk.guarded(c12.r_offset_writer_map, P, tier)
+    chk.guarded(c12.r_two_digit_writer_map, P, tier)
     chk.assume("the round trip itself (for any value), white-space and letter-case perturbations are NOT decided; only that reader and writer agree item by item on width, sign and field")
     return {
         "explanation": "Narrow claim for C13: for every Numeric item the reader's (max width, signed, setter) triple is compatible with what the writer emits (width >= written "
